@@ -144,7 +144,7 @@ func c20BinGen(t *rapid.T) c20BinPlan {
 	n := rapid.IntRange(3, 10).Draw(t, "ncmds")
 	for i := 0; i < n; i++ {
 		c := c20Cmd{Svc: rapid.SampledFrom(c20Names).Draw(t, "svc")}
-		c.Op = rapid.SampledFrom([]string{"deploy", "deploy", "deploy", "remove", "pause", "stop", "resume", "rollout-deploy", "rollout-set", "rollout-stop", "list"}).Draw(t, "op")
+		c.Op = rapid.SampledFrom([]string{"deploy", "deploy", "deploy", "remove", "remove", "pause", "stop", "resume", "rollout-deploy", "rollout-set", "rollout-stop", "list", "restart", "list"}).Draw(t, "op")
 		switch c.Op {
 		case "deploy":
 			nh := rapid.IntRange(0, 2).Draw(t, "nhosts")
@@ -239,28 +239,42 @@ func c20BinRun(t *testing.T, p c20BinPlan) (res vfResult) {
 	}
 	httpPort, httpsPort := c20FreePort(), c20FreePort()
 	var out bytes.Buffer
-	proxy := exec.Command(bin, "run", "--http-port", fmt.Sprint(httpPort), "--https-port", fmt.Sprint(httpsPort))
-	proxy.Env = env
-	proxy.Stdout, proxy.Stderr = &out, &out
-	if err := proxy.Start(); err != nil {
-		res.failf("harness", "start proxy: %v", err)
-		return
-	}
-	defer func() {
-		proxy.Process.Kill()
-		proxy.Wait()
-	}()
+	var proxy *exec.Cmd
 	sock := filepath.Join(dir, "kamal-proxy.sock")
-	deadline := time.Now().Add(15 * time.Second)
-	for {
-		if _, err := os.Stat(sock); err == nil {
-			break
+	startProxy := func() string {
+		os.Remove(sock)
+		proxy = exec.Command(bin, "run", "--http-port", fmt.Sprint(httpPort), "--https-port", fmt.Sprint(httpsPort))
+		proxy.Env = env
+		proxy.Stdout, proxy.Stderr = &out, &out
+		if err := proxy.Start(); err != nil {
+			return "start proxy: " + err.Error()
 		}
-		if time.Now().After(deadline) {
-			res.Excluded = "proxy did not start within 15 s (inconclusive)"
-			return
+		deadline := time.Now().Add(15 * time.Second)
+		for {
+			if _, err := os.Stat(sock); err == nil {
+				return ""
+			}
+			if time.Now().After(deadline) {
+				return "timeout"
+			}
+			time.Sleep(5 * time.Millisecond)
 		}
-		time.Sleep(5 * time.Millisecond)
+	}
+	stopProxy := func() {
+		if proxy != nil && proxy.Process != nil {
+			proxy.Process.Kill()
+			proxy.Wait()
+		}
+	}
+	defer stopProxy()
+	switch why := startProxy(); why {
+	case "":
+	case "timeout":
+		res.Excluded = "proxy did not start within 15 s (inconclusive)"
+		return
+	default:
+		res.failf("harness", "%s", why)
+		return
 	}
 	// the ports given on the command line are the ports served: plain HTTP on one, TLS on the other
 	hc := &http.Client{Timeout: 5 * time.Second}
@@ -317,6 +331,20 @@ func c20BinRun(t *testing.T, p c20BinPlan) (res vfResult) {
 			args = []string{"rollout", "stop", c.Svc}
 		case "list":
 			args = []string{"list"}
+		case "restart":
+			// the proxy goes away (killed) and is started again over the same data directory
+			stopProxy()
+			switch why := startProxy(); why {
+			case "":
+			case "timeout":
+				res.Excluded = "proxy did not start within 15 s (inconclusive)"
+				return
+			default:
+				res.failf("harness", "%s", why)
+				return
+			}
+			res.label("restart-between-commands")
+			continue
 		}
 		wantFail := c20Apply(m, c)
 		cmd := exec.Command(bin, args...)
